@@ -5,7 +5,19 @@ usage: gwbdriver <declarations.schema.json> <MAJOR.MINOR>     (requests on stdin
 import Driver.FloatScalar
 import GwbVerif.Model.Parse.Json
 import GwbVerif.Model.Apps.Grid
+import GwbVerif.Model.Apps.Dat
 open Gwb Lean
+
+/-- the text gwb-dat prints for a column name -/
+def colText (dim : Nat) : ColName → String
+  | .input i => if dim == 2 then (["x", "z", "d"][i]?).getD "?" else (["x", "y", "z", "d"][i]?).getD "?"
+  | .T => "T"
+  | .v i => if dim == 2 then (["vx", "vz", "v2"][i]?).getD "?" else (["vx", "vy", "vz"][i]?).getD "?"
+  | .c n => s!"c{n}"
+  | .gs gc g => s!"gs{gc}-{g}"
+  | .gm gc g r c => s!"gm{gc}-{g}[{r}:{c}]"
+  | .tag => "tag"
+  | .g => "g"
 
 def hexDigit (n : UInt64) : Char :=
   let n := n.toNat
@@ -86,6 +98,21 @@ partial def loop (decl : Json) (version : String) (stdin : IO.FS.Stream) (worlds
   match ws with
   | [] => loop decl version stdin worlds
   | "schema" :: _ => IO.println "ok"; loop decl version stdin worlds
+  | ["dat", d, c, gc, ng, cs] =>
+    match d.toNat?, c.toNat?, gc.toNat?, ng.toNat? with
+    | some d, some c, some gc, some ng =>
+      let cfg : DatCfg := { dim := d, compositions := c, grainCompositions := gc, nGrains := ng, convertSpherical := cs == "true" }
+      let hdr := " ".intercalate ((datHeader cfg).map (colText d))
+      let slots := " ".intercalate ((datRowSlots cfg).map (fun (o : Option Nat) => match o with | none => "in" | some s => toString s))
+      let props := ",".intercalate ((datProps cfg).map (fun (p : Req) => s!"{p.code}:{p.n}:{p.k}"))
+      IO.println s!"ok {hdr} | {slots} | {props}"
+      loop decl version stdin worlds
+    | _, _, _, _ => IO.println "err bad-args"; loop decl version stdin worlds
+  | ["datopts", path] =>
+    let txt ← IO.FS.readFile path
+    let cfg := datOptions ((txt.splitOn "\n").map datTokens)
+    IO.println s!"ok {cfg.dim} {cfg.compositions} {cfg.grainCompositions} {cfg.nGrains} {cfg.convertSpherical}"
+    loop decl version stdin worlds
   | ["parfor", a, b, c] =>
     match a.toNat?, b.toNat?, c.toNat? with
     | some start, some stop, some pool =>
